@@ -892,7 +892,8 @@ class C11(Engine):
     prop = "C11"
     level = "exploration"
     rule = ("seeded histories of rule-management calls: (a) 3-25 Ruler ops (push/before/after/at/enable/enableOnly/"
-            "disable/getRules) over names {a,b,c,d,zz,nope} and chains {'',p,q,nochain}; (b) 2-14 facade ops "
+            "disable/getRules) over names {a,b,c,d,zz,nope} and chains {'',p,q,nochain}, duplicate names, one function under "
+            "several names, repeated/default chain in alt, reporting calls dense or sparse; (b) 2-14 facade ops "
             "(MarkdownIt.enable/disable/configure/reset_rules, direct ruler calls, plugin registrations, parses) then "
             "probe parses against a twin. Non-trivial = a mutator ran after a read/parse had compiled the chain cache; "
             "distinct = distinct event-log digests among those.")
